@@ -176,6 +176,24 @@ def _inflight_probe(frame) -> dict:
     return out
 
 
+def _install_sim_env() -> dict:
+    import time as _time
+
+    env = {"clock": 1_700_000_000.0, "pid": 4242, "ticks": 0}
+
+    def now():
+        env["ticks"] += 1
+        return env["clock"] + env["ticks"] * 1e-6
+
+    _time.time = now
+    _time.monotonic = now
+    _time.perf_counter = now
+    _time.time_ns = lambda: int(now() * 1e9)
+    _time.monotonic_ns = lambda: int(now() * 1e9)
+    os.getpid = lambda: env["pid"]
+    return env
+
+
 def _call_at_depth(n: int, fn):
     """Call fn() from n extra Python frames (the caller's stack depth is not an input)."""
     if n <= 0:
@@ -226,6 +244,7 @@ def child_ref(arg) -> dict:
     from oneliner.config import Configs
 
     src, model, with_text = arg["src"], arg["model"], arg.get("text", False)
+    _install_sim_env()
     if arg.get("reclimit"):
         sys.setrecursionlimit(arg["reclimit"])  # what the caller of the history had set before the call
     if model is None:
@@ -355,6 +374,9 @@ def child_history(desc: dict) -> dict:
     models: dict[str, dict] = {}
     saved_states: list = []
     events = []
+    # clocks and the process id are behind the simulator: a logical clock that only the `env clock`
+    # action advances, and a fixed pid (changed by `env pid`); the reference child sees the same
+    sim_env = _install_sim_env()
     flags0 = _monitor_flags()
     caller_env = {"reclimit": None}
     nonlocal_flags = [flags0]
@@ -362,7 +384,7 @@ def child_history(desc: dict) -> dict:
     mon_tripped = False
     total_lines = 0
 
-    def convert(src, oid, filename=None, depth=0):
+    def convert(src, oid, filename=None, depth=0, how=None):
         kw = {}
         if filename is not None:
             kw["filename"] = filename
@@ -370,6 +392,29 @@ def child_history(desc: dict) -> dict:
             kw["configs"] = objs[oid]
         if depth:
             return _call_at_depth(depth, lambda: oneliner.convert_code_string(src, **kw))
+        if how == "thread":
+            # the same call made from another thread (sequentially): thread identity is not an input
+            import threading
+
+            box = {}
+
+            def work():
+                try:
+                    box["r"] = oneliner.convert_code_string(src, **kw)
+                except BaseException as e:  # noqa: BLE001
+                    box["e"] = e
+
+            t = threading.Thread(target=work)
+            t.start()
+            t.join()
+            if "e" in box:
+                raise box["e"]
+            return box["r"]
+        if how == "main_namespace":
+            # the caller is a script (`__name__ == "__main__"`, its own `__file__`)
+            ns = {"__name__": "__main__", "__file__": "/somewhere/tool.py", "convert": oneliner.convert_code_string, "src": src, "kw": kw}
+            exec("result = convert(src, **kw)", ns)
+            return ns["result"]
         return oneliner.convert_code_string(src, **kw)
 
     def run_op(op):
@@ -429,6 +474,29 @@ def child_history(desc: dict) -> dict:
             elif what == "recursionlimit":
                 sys.setrecursionlimit(op["value"])
                 caller_env["reclimit"] = op["value"]
+            elif what == "clock":
+                sim_env["clock"] += op["value"]          # hours or days pass between two calls
+            elif what == "pid":
+                sim_env["pid"] = op["value"]
+            elif what == "gc":
+                if op["value"] == "disable":
+                    gc.disable()
+                elif op["value"] == "enable":
+                    gc.enable()
+                else:
+                    gc.set_threshold(*op["value"])
+            elif what == "import":
+                try:
+                    __import__(op["value"])
+                except ImportError:
+                    ev["skip"] = True
+            elif what == "locale":
+                import locale as _locale
+
+                try:
+                    _locale.setlocale(_locale.LC_ALL, op["value"])
+                except _locale.Error:
+                    ev["skip"] = True
             return ev
         if kind == "churn":
             # create many option objects, set an option on each, drop them all: afterwards the
@@ -548,7 +616,7 @@ def child_history(desc: dict) -> dict:
                 ev["filename"] = fname
             depth = op.get("depth", 0)
             if kind == "conv":
-                ev.update(_outcome_of_call(lambda: convert(src, oid, fname, depth)))
+                ev.update(_outcome_of_call(lambda: convert(src, oid, fname, depth, op.get("how"))))
                 return ev
             inj = Injector(pkgdir, op["mode"], k=op.get("k", 0), func=op.get("func"), j=op.get("j", 0),
                            exc=op.get("exc", "SimAbort"))
@@ -779,8 +847,9 @@ def gen_history(seed: int, ctx: C10Ctx, knobs: dict | None = None) -> dict:
 
     variant_rate = rng.choice([0.0, 0.0, 0.15, 0.4])
     burst_rate = rng.choice([0.0, 0.0, 0.0, 0.05])
-    env_rate = rng.choice([0.0, 0.0, 0.08])
+    env_rate = rng.choice([0.0, 0.0, 0.1, 0.25])
     depth_rate = rng.choice([0.0, 0.0, 0.2])
+    how_rate = rng.choice([0.0, 0.0, 0.15])
 
     def pick_prog():
         if inline and rng.random() < 0.4:
@@ -897,15 +966,25 @@ def gen_history(seed: int, ctx: C10Ctx, knobs: dict | None = None) -> dict:
             continue
         if not last and rng.random() < burst_rate:
             ops.append({"op": "burst", "prog": rng.choice(["short:two_stmts", "short:if_chain", "short:for_break", "short:capt2"]),
-                        "obj": pick_obj(), "n": rng.choice([40, 130, 300])})
+                        "obj": pick_obj(), "n": rng.choice([40, 130, 300, 300, 1100])})
             continue
         if not last and rng.random() < env_rate:
             k = rng.random()
-            if k < 0.2:
+            if k < 0.12:
                 ops.append({"op": "env", "what": "recursionlimit", "value": rng.choice([3000, 5000, 1000])})
-            elif k < 0.35:
+            elif k < 0.2:
+                ops.append({"op": "env", "what": "clock", "value": rng.choice([61.0, 3601.0, 86401.0, 40 * 86400.0])})
+            elif k < 0.25:
+                ops.append({"op": "env", "what": "pid", "value": rng.choice([1, 77777, 4243])})
+            elif k < 0.33:
+                ops.append({"op": "env", "what": "gc", "value": rng.choice(["disable", "enable", [1, 1, 1], [100000, 50, 50]])})
+            elif k < 0.37:
+                ops.append({"op": "env", "what": "import", "value": rng.choice(["decimal", "readline", "pdb", "unittest", "multiprocessing", "asyncio"])})
+            elif k < 0.4:
+                ops.append({"op": "env", "what": "locale", "value": rng.choice(["C", "C.UTF-8", "POSIX"])})
+            elif k < 0.55:
                 ops.append({"op": "env", "what": "chdir", "value": rng.choice(["/", "/usr", "/tmp"])})
-            elif k < 0.6:
+            elif k < 0.7:
                 ops.append({"op": "env", "what": "argv", "value": rng.choice([["prog"], ["oneliner", "-Cunparser=oneliner", "x.py"], []])})
             else:
                 ops.append({"op": "env", "what": "environ", "name": rng.choice(["ONELINER_UNPARSER", "PYTHONHASHSEED", "LANG", "ONELINER_DEBUG", "COLUMNS"]),
@@ -917,6 +996,8 @@ def gen_history(seed: int, ctx: C10Ctx, knobs: dict | None = None) -> dict:
             op["filename"] = rng.choice(["x.py", "/abs/dir/mod.py", "<stdin>", ""])
         if rng.random() < depth_rate and op.get("prog", "").startswith("short:"):
             op["depth"] = rng.choice([40, 150, 250])
+        elif rng.random() < how_rate:
+            op["how"] = rng.choice(["thread", "main_namespace"])
         ops.append(op)
     return {"prop": "C10", "seed": seed, "ops": ops, "extend": True}
 
